@@ -23,9 +23,10 @@ structure Codec where
 structure Codec.Good (c : Codec) : Prop where
   roundtrip : ∀ bs, SA.Bytes bs → c.dec (c.enc bs) = some bs
 
-/-- C08's `alphabet_safe`, as far as the wire needs it: output bytes, none of them '.' or '\\' -/
+/-- C08's `alphabet_safe`, as far as the wire needs it: on byte strings the output consists of bytes,
+    none of them '.' or '\\' (restricted to byte-string inputs, exactly as C08 states it) -/
 structure Codec.Safe (c : Codec) : Prop where
-  safe : ∀ bs, ∀ x ∈ c.enc bs, x ≠ 46 ∧ x ≠ 92 ∧ x < 256
+  safe : ∀ bs, SA.Bytes bs → ∀ x ∈ c.enc bs, x ≠ 46 ∧ x ≠ 92 ∧ x < 256
 
 def raw : Codec := ⟨id, some⟩
 
